@@ -235,3 +235,42 @@ harness_lms_contract! { fn c03_step_contract_h25_h5() unwind 36 { step_contract:
 harness_lms_contract! { fn c03_step_contract_h20() unwind 36 { step_contract::<HavocSum16>(&[0x84], &[20]) }}
 harness_lms_contract! { fn c03_step_contract_h15_h15_h15_h15() unwind 36 { step_contract::<HavocSum16>(&[0x74, 0x74, 0x74, 0x74], &[15, 15, 15, 15]) }}
 harness_lms_contract! { fn c03_step_contract_8x_h5() unwind 36 { step_contract::<HavocSum16>(&[0x54; 8], &[5; 8]) }}
+
+/// In-memory signing key over the LMS contract: SigningKey::try_sign must leave exactly the
+/// successor the byte-level function hands to its callback (counter + 1, or the wiped key).
+fn signing_key_entry_contract(param_bytes: &[u8], heights: &[u32]) {
+    type H = HavocSum16;
+    let levels = param_bytes.len();
+    let mut total = 0u32;
+    let mut l = 0;
+    while l < levels { total += heights[l]; l += 1; }
+    let mut key = [0xffu8; 32];
+    let c: u64 = kani::any();
+    kani::assume(c < (1u64 << total));
+    key[..8].copy_from_slice(&c.to_be_bytes());
+    key[8..8 + levels].copy_from_slice(param_bytes);
+    let seed: [u8; 16] = kani::any();
+    key[16..].copy_from_slice(&seed);
+    let mut sk = SigningKey::<H>::from_bytes(&key).unwrap();
+    let r = sk.try_sign(&[9u8, 9, 9]);
+    assert!(r.is_ok(), "in-memory signing key always accepts its own update");
+    let after = sk.as_slice();
+    assert!(after.len() == 32, "key length unchanged");
+    if c < (1u64 << total) - 1 {
+        assert!(after[..8] == (c + 1).to_be_bytes(), "in-memory key advanced by one");
+        let mut k = 8;
+        while k < 32 { assert!(after[k] == key[k], "nothing but the counter changes"); k += 1; }
+        assert!(sk.get_lifetime().ok() == Some((1u64 << total) - c - 1), "lifetime lowered by one");
+    } else {
+        let mut k = 0;
+        while k < 8 { assert!(after[k] == 0, "wiped counter"); k += 1; }
+        while k < 16 { assert!(after[k] == 0xff, "wiped parameters"); k += 1; }
+        while k < 32 { assert!(after[k] == 0, "wiped seed"); k += 1; }
+        assert!(sk.get_lifetime().is_err(), "exhausted key: lifetime query fails");
+        assert!(sk.try_sign(&[1u8]).is_err(), "exhausted key refuses to sign");
+    }
+    kani::cover!(c == (1u64 << total) - 1, "last leaf");
+    kani::cover!(c == 0, "fresh key");
+}
+harness_lms_contract! { fn c04_signing_key_entry_contract_h5() unwind 36 { signing_key_entry_contract(&[0x54], &[5]) }}
+harness_lms_contract! { fn c04_signing_key_entry_contract_h10_h5() unwind 36 { signing_key_entry_contract(&[0x64, 0x54], &[10, 5]) }}
